@@ -97,3 +97,15 @@ def ps4_map_err_into(u, key, text):
     new, n = pat.subn(lambda m: 'match %s { Ok(ps_v) => Ok(ps_v), Err(ps_e) => Err(core::convert::From::from(ps_e)) }' % m.group(1), text)
     u.rules['PS4-map-err-into'] += n
     return new
+
+
+def ps5_unwrap_or_else(u, key, text):
+    """PS5  X.unwrap_or_else(|| E)   ->   match X { Some(ps_v) => ps_v, None => E }
+    for a local X and an expression E without parentheses nesting beyond one call (std: Option::unwrap_or_else "Returns the contained Some value
+    or computes it from a closure").  Written out because the closure captures the cursor, which the verifier does not accept."""
+    pat = re.compile(r'\b(\w+)\.unwrap_or_else\(\|\| ([\w.]+\(\))\)')
+    new, n = pat.subn(lambda m: 'match %s { Some(ps_v) => ps_v, None => %s }' % (m.group(1), m.group(2)), text)
+    if 'unwrap_or_else' in new:
+        raise LostAnchor('%s: PS5 an unwrap_or_else of another shape' % key)
+    u.rules['PS5-unwrap-or-else'] += n
+    return new
